@@ -215,6 +215,7 @@ func runC16(p *Prog, r *Report, tier string) {
 		}
 	}
 
+	checkResetOnAllPaths(p, r, "R-RESET.all-paths", []string{"headerBuffer", "length", "records", "setType"})
 	// (3) add-path equivalence
 	ar := p.Fn("(*pkg/entities.set).AddRecord")
 	are := p.Fn("(*pkg/entities.set).AddRecordWithExtraElements")
@@ -281,6 +282,23 @@ func runC16(p *Prog, r *Report, tier string) {
 			}
 		})
 		r.Check(n == 1 && okG, "R-EQUIV.prepare", fnKey(f)+": PrepareRecord once for template records", p.pos(f.Pos()), "one call, guarded by setType == Template, outside loops", "the template record header is not written exactly once", true)
+	}
+	// the copying paths never adopt the caller's slice: the adopting constructors are called from AddRecordV2 only
+	g := p.CallGraph()
+	for _, name := range []string{"pkg/entities.NewDataRecordFromElements", "pkg/entities.NewTemplateRecordFromElements"} {
+		f := p.Fn(name)
+		if f == nil {
+			continue
+		}
+		for _, cs := range g.callers[f] {
+			r.Check(cs.Parent() == av2, "R-EQUIV.no-adopt", fnKey(cs.Parent())+": calls "+f.Name(), p.instrPos(cs), "the slice-adopting constructor is used by AddRecordV2 only",
+				"a copying add path adopts the caller's element slice: the record changes when the caller reuses its slice, so the add paths are no longer byte-identical", true)
+		}
+	}
+	for _, cs := range g.callers[av2] {
+		if keyInPkg(fnKey(cs.Parent()), "pkg/entities") && (cs.Parent() == are || cs.Parent() == ar) {
+			r.Violation("R-EQUIV.no-adopt", fnKey(cs.Parent())+": delegates to AddRecordV2", p.instrPos(cs), "a copying add path delegates to the slice-adopting path: records alias the caller's slice")
+		}
 	}
 	// record constructors / accessors
 	checkRecordSummaries(p, r)
@@ -462,5 +480,46 @@ func checkSetAccessors(p *Prog, r *Report, rule string) {
 			}
 		})
 		r.Check(ok && n == 1, rule, fnKey(f)+": returns the maintained field", p.pos(f.Pos()), "accessor of the builder's own state", name+" does not return the state the builder maintains (record count / records / header / type)", false)
+	}
+}
+
+// checkResetOnAllPaths: on every path through ResetSet on which the set is an encoding set (isDecoding == false) each
+// of the given fields is stored; setType must be stored as Undefined.
+func checkResetOnAllPaths(p *Prog, r *Report, rule string, fields []string) {
+	rs := p.Fn("(*pkg/entities.set).ResetSet")
+	if rs == nil {
+		r.Undecided(rule, "anchor: ResetSet", "pkg/entities/set.go", "not found")
+		return
+	}
+	for _, fld := range fields {
+		q := &pathQuery{discharge: func(in ssa.Instruction) bool {
+			st, ok := in.(*ssa.Store)
+			if !ok || !isSetField(st.Addr, fld) {
+				return false
+			}
+			if fld == "setType" {
+				v, ok := constInt(st.Val)
+				return ok && v == 255
+			}
+			return true
+		}, prune: func(from *ssa.BasicBlock, si int) bool {
+			// edges on which isDecoding is true are outside the encoding-side statement
+			i := ifOf(from)
+			if i == nil {
+				return false
+			}
+			cond, pol := i.Cond, si == 0
+			if u, ok := cond.(*ssa.UnOp); ok && u.Op == token.NOT {
+				cond, pol = u.X, !pol
+			}
+			return isFieldLoad(cond, "pkg/entities.set.isDecoding") && pol
+		}}
+		trail, bad := q.findFromBlock(rs.Blocks[0])
+		what := "re-initialised"
+		if fld == "setType" {
+			what = "set to Undefined"
+		}
+		r.Check(!bad, rule, fnKey(rs)+": "+fld+" "+what+" on every encoding path", p.pos(rs.Pos()), "every path with isDecoding == false stores it",
+			"a path through ResetSet of an encoding set leaves "+fld+" as it was: after a reset the set does not behave like a new one (e.g. it keeps its type and can be sent without PrepareSet); path "+p.describePath(rs, trail), true)
 	}
 }
